@@ -378,6 +378,8 @@ def run(ck, parts=None):
                'D4 edge-insertion discipline: raw add_edge/add_edge_with_type only to fresh vertices or under a not-connected test in basic_rules.rs, simplify.rs, graph.rs')
     ck.not_decided('that the schemas themselves are true ZX identities (trusted base)', 'soundness of composites as a whole (induction over D1-D4 is an argument, not a computation)',
                    'termination', 'panic freedom beyond the existence clause', 'floating-point tolerance for non-Clifford+T phases')
+    if parts >= {'D1', 'D2', 'D3', 'D4'}:
+        _d0(ck, facts)
     if 'D1' in parts:
         _d1(ck, facts)
     if 'D2' in parts:
@@ -388,6 +390,53 @@ def run(ck, parts=None):
         from .. import reffect
         reffect.check_c01_schemas(ck)
     _controls(ck)
+
+
+SIMP_QUICK = [('circuit-like', 'vec_graph::Graph', 29), ('gadgets', 'vec_graph::Graph', 29), ('two-cores', 'vec_graph::Graph', 499), ('one-core', 'vec_graph::Graph', 97),
+              ('circuit-like', 'hash_graph::Graph', 151), ('gadgets', 'hash_graph::Graph', 151)]
+SIMP_THOROUGH = [('circuit-like', 'vec_graph::Graph', 1), ('gadgets', 'vec_graph::Graph', 1), ('two-cores', 'vec_graph::Graph', 7), ('one-core', 'vec_graph::Graph', 3), ('boundary', 'vec_graph::Graph', 3),
+                 ('circuit-like', 'hash_graph::Graph', 11), ('gadgets', 'hash_graph::Graph', 11), ('two-cores', 'hash_graph::Graph', 97)]
+
+
+def _d0(ck, facts):
+    """the statement itself on small diagrams: every simplifier of simplify.rs interpreted on both back ends, map before = map after (qxlib/zxsem.py)"""
+    from .. import zxsem, minirust
+    ck.decided('D0 (evaluation, small scope) every simplification procedure of simplify.rs (id, spider, local-complementation, pivot, generalised-pivot, scalar, flow, interior-Clifford, Clifford, gadget fusion, gadget-pi removal, full) '
+               'interpreted from its HIR, with basic_rules.rs, phase.rs, params.rs and both graph back ends, on a finite family of small diagrams (circuit-like diagrams on two wires with Clifford+T phases, cross edges and a phase gadget; '
+               'pairs of phase gadgets; one or two core spiders with neighbours and boundaries; with and without boolean variables): the simplified diagram denotes the same linear map, scalar included, under every assignment '
+               '(brute-force contraction over exact numbers in Q(e^{i pi/4}), independent of tensor.rs), and no procedure panics')
+    plan = SIMP_THOROUGH if ck.tier == 'thorough' else SIMP_QUICK
+    try:
+        tot, bad, declined = zxsem.run_simplifiers(facts, plan, procs=16 if ck.tier == 'thorough' else 8)
+    except (minirust.NoEval, minirust.Proceed) as ex:
+        ck.ob3('E3-simplifiers', 'evaluation', None, ck.site('simplify::full_simp'), 'the evaluator declined (%s: %s)' % (type(ex).__name__, ex))
+        return
+    simps = zxsem.simplifier_table(facts)
+    by = {}
+    for fam, ty, sk, dia, _a, what in bad:
+        by.setdefault(sk, []).append((ty, dia, what))
+    for sk in simps:
+        ck.fn(sk)
+        fs = by.get(sk, [])
+        for clause, pred in (('preserves-the-map', lambda w: not w.startswith('panics')), ('no-panic', lambda w: w.startswith('panics'))):
+            hit = [f for f in fs if pred(f[2])]
+            if hit:
+                ty, dia, what = hit[0]
+                ck.ob('E3-simplifiers', '%s/%s' % (sk, clause), False, ck.site(sk), 'on the diagram %s (%s) %s: %s [%d such cases in this run]' % (dia, ty.split('::')[0], sk.rsplit('::', 1)[-1], what, len(hit)))
+            else:
+                ck.ob('E3-simplifiers', '%s/%s' % (sk, clause), True, ck.site(sk), '', sample={'simplifier': sk, 'diagrams_it_changed_in_this_run': tot['per_simp_changed'].get(sk, 0)} if clause == 'preserves-the-map' else None)
+    idle = sorted(k for k in simps if not tot['per_simp_changed'].get(k))
+    ck.floor('E3-simplifiers-procedures', len(simps), 12)
+    ck.floor('E3-simplifiers-procedures-that-changed-a-diagram', len(simps) - len(idle), 12)
+    ck.floor('E3-simplifiers-runs', tot['runs'], 40000 if ck.tier == 'thorough' else 3000)
+    if tot['declined'] * 50 > tot['runs']:
+        k0 = sorted(declined)[0]
+        ck.ob3('E3-simplifiers', 'declined', None, ck.site(declined[k0][0]) if declined[k0][0] in facts['fns'] else '', 'the evaluator declined %d of %d runs, e.g. %s on %s' % (tot['declined'], tot['runs'], k0, declined[k0][1]))
+    _c1, _c2 = zxsem.oracle_controls()
+    ck.control('E3-simplifiers oracle: the fast contraction agrees with the reference contraction on a fixed sample of every family', _c1)
+    ck.control('E3-simplifiers oracle: accepts a true identity and tells apart a wrong phase, a flipped edge type, a negated scalar and a dropped variable', _c2)
+    ck.note('E3-simplifiers: %d diagrams, %d runs of %d procedures, %d changed the diagram, %d declined; changed per procedure: %s'
+            % (tot['diagrams'], tot['runs'], tot['simplifiers'], tot['changed'], tot['declined'], ', '.join('%s %d' % (k.rsplit('::', 1)[-1], n) for k, n in sorted(tot['per_simp_changed'].items()))))
 
 
 def _d1(ck, facts):
